@@ -21,8 +21,10 @@ fn agg(rng: &mut Rng) -> String {
         8 => format!("AVG({})", rng.pick(&["v", "w", "r", "iv", "t2 - ts", "t2 - ts"])),
         9 => format!("{}({})", rng.pick(&["STDDEV", "VARIANCE"]), rng.pick(&["v", "w", "r"])),
         10 => format!("PERCENTILE({}, {})", rng.pick(&["v", "w", "k", "iv", "ts", "s", "t2 - ts"]), rng.pick(&["0.0", "0.5", "0.9", "1.0"])),
-        11 => format!("BOOL_AND({})", rng.pick(&["v > 0", "w = 1", "k = 'a'", "b"])),
-        12 => format!("BOOL_OR({})", rng.pick(&["v > 30", "w = 1", "k = 'a'", "b"])),
+        // the last two arguments have no value on a row with w = 0: whether that row comes before or after the row that
+        // decides the aggregate must not matter (an error in every order)
+        11 => format!("BOOL_AND({})", rng.pick(&["v > 0", "w = 1", "k = 'a'", "b", "10 / w > 1", "v / w < 5"])),
+        12 => format!("BOOL_OR({})", rng.pick(&["v > 30", "w = 1", "k = 'a'", "b", "10 / w > 1", "v / w < 5"])),
         _ => "COUNT(*) + 1".to_owned(),
     }
 }
